@@ -22,6 +22,8 @@ def classify_build(out, feats):
     msg = re.sub(r"\b[A-Z]\w*\d+\b", "T", msg)          # generated type names
     msg = re.sub(r"struct\{.*", "struct{…}", msg)
     msg = re.sub(r"\"[^\"]*\"", "\"…\"", msg)[:90]
+    if re.search(r"cannot use (\[\]interface\{\}|map\[string\]interface\{\})\{…\} .* in assignment", msg):
+        return "build/collection-default-given-as-interface-values"
     where = re.search(r"(gen/[\w/]+/|cmd/[\w-]+/|\w+\.go)", first)
     area = "/".join(where.group(1).strip("/").split("/")[-2:]) if where else "?"
     if feats.get("risky"):
@@ -72,10 +74,10 @@ def run(c):
         return
     work = designs.scratch("C01")
 
-    def one(i):
-        flags = designs.flags_for(i)
+    def one(job):
+        i, flags = job
         dj = designs.make_design(c.seed, i, flags)
-        wd = os.path.join(work, "d%d" % i)
+        wd = os.path.join(work, "d%d%s" % (i, "".join(f for f in flags if f.endswith("-design") or f.startswith("-loose"))))
         rep = designs.run_design(dj, wd, example=True)
         feats = designs.features(dj)
         feats["risky"] = designs.risky_name(dj) if "-risky-names" in flags else None
@@ -104,7 +106,15 @@ def run(c):
         shutil.rmtree(wd, ignore_errors=True)
         return res
 
-    results = designs.parallel(one, range(n))
+    extra = 24 if c.tier == "quick" else 96
+    jobs = [(i, designs.flags_for(i)) for i in range(n)]
+    # the systematic tables of the other checks go through the type checker too
+    jobs += [(j, ["-matrix-design"]) for j in range(extra)] + [(j, ["-alias-design"]) for j in range(min(extra, 40))]
+    jobs += [(j, ["-views-design"]) for j in range(extra)]
+    jobs += [(3, ["-matrix-design", "-loose-defaults"])]  # collection defaults handed to Default() as []any / map[string]any
+    c.cov["rule"] += (" Plus %d designs each of the systematic transport table (-matrix-design), the primitive-alias designs (-alias-design, at most 40) "
+                      "and the result-type/view designs (-views-design)." % extra)
+    results = designs.parallel(one, jobs)
     shutil.rmtree(work, ignore_errors=True)
     programs = 0
     for r in results:
